@@ -235,9 +235,7 @@ theorem columns_spec_down (g : Globals) (hg : g.dialect = .mysql) (hio : g.ignor
     (heo : execAll rc [] old = some dbO) (hen : execAll rc [] new = some dbN)
     (d : Migration) (hd : loadAndDiff g old new = .ok d)
     (t : String) (tbO tbN : TableSpec) (hfo : dbO.find t = some tbO) (hfn : dbN.find t = some tbN)
-    (hc : Abs.OrderCompatible tbN.colNames tbO.colNames) (hne : ∀ n ∈ tbN.colNames ++ tbO.colNames, n ≠ "")
-    (hncO : ∀ c ∈ tbO.cols, ∀ k ∈ c.opts, k.noComment = true)
-    (hncN : ∀ c ∈ tbN.cols, ∀ k ∈ c.opts, k.noComment = true) :
+    (hc : Abs.OrderCompatible tbN.colNames tbO.colNames) (hne : ∀ n ∈ tbN.colNames ++ tbO.colNames, n ≠ "") :
     ∃ td ∈ d.tables, td.name = t ∧ td.action = .none ∧
       td.migrationColumnDown g = .ok (Table.walkCols g t false [] td.cols) ∧
       ∃ cols', colExecAll tbN.cols (Table.walkCols g t false [] td.cols).1 = some cols' ∧
@@ -327,9 +325,9 @@ theorem columns_spec_down (g : Globals) (hg : g.dialect = .mysql) (hio : g.ignor
       have : x = cN := eq_of_name_nodup (fun y : ColSpec => y.name) hNnd hxN hcN (hxn.trans hcNn.symm)
       rw [this]
       exact equiv_of cN cO hcNn hsame.1.symm hsame.2.symm
-    · have hchg : cO.typ ≠ cN.typ ∨ (¬ cO.opts.Perm cN.opts ∧ (∀ k ∈ cO.opts, k.noComment = true) ∧ (∀ k ∈ cN.opts, k.noComment = true)) := by
+    · have hchg : cO.typ ≠ cN.typ ∨ ¬ cO.opts.Perm cN.opts := by
         by_cases ht : cO.typ = cN.typ
-        · exact Or.inr ⟨fun hp => hsame ⟨ht, hp⟩, hncO cO hcO, hncN cN hcN⟩
+        · exact Or.inr (fun hp => hsame ⟨ht, hp⟩)
         · exact Or.inl ht
       obtain ⟨td', htd', hn', _, _, ⟨cd, hmem, hpk, hcdn, hcdt, hcdo⟩⟩ := changed_column_modified g hg rc old new dbO dbN ho hn hpo hpn
         heo hen d hd t tbO tbN hfo hfn cN cO hcN hcO hcNn.symm hchg
@@ -358,9 +356,7 @@ theorem columns_spec_down_pre (g : Globals) (hg : g.dialect = .mysql) (hio : g.i
     (heo : execAll rc [] old = some dbO) (hen : execAll rc [] new = some dbN)
     (d : Migration) (hd : loadAndDiff g old new = .ok d)
     (t : String) (tbO tbN : TableSpec) (hfo : dbO.find t = some tbO) (hfn : dbN.find t = some tbN)
-    (hc : Abs.OrderCompatible tbN.colNames tbO.colNames) (hne : ∀ n ∈ tbN.colNames ++ tbO.colNames, n ≠ "")
-    (hncO : ∀ c ∈ tbO.cols, ∀ k ∈ c.opts, k.noComment = true)
-    (hncN : ∀ c ∈ tbN.cols, ∀ k ∈ c.opts, k.noComment = true) :
+    (hc : Abs.OrderCompatible tbN.colNames tbO.colNames) (hne : ∀ n ∈ tbN.colNames ++ tbO.colNames, n ≠ "") :
     ∃ td ∈ d.tables, td.name = t ∧ td.action = .none ∧
       td.migrationColumnDown g = .ok (Table.walkCols g t false [] td.cols) ∧
       ∃ cols', colExecAll tbN.cols (Table.walkCols g t false [] td.cols).1 = some cols' ∧
@@ -371,7 +367,7 @@ theorem columns_spec_down_pre (g : Globals) (hg : g.dialect = .mysql) (hio : g.i
   have hnc : new.all Stmt.colSafe = true :=
     List.all_eq_true.mpr (fun s hs => Stmt.colSafe_of_elemSafe s (List.all_eq_true.mp hn s hs))
   obtain ⟨td, htd, hname, hact, hdown, cols', hex, heq⟩ := columns_spec_down g hg hio rc old new dbO dbN ho hn hpo hpn heo hen d hd
-    t tbO tbN hfo hfn hc hne hncO hncN
+    t tbO tbN hfo hfn hc hne
   obtain ⟨mn0, _, hrn0⟩ := ReaderMysql.run_rel rc new {} [] dbN Rel.empty hnc hen
   have hdInv : d.Inv := by
     have hd' := hd
@@ -448,9 +444,9 @@ theorem columns_spec_down_pre (g : Globals) (hg : g.dialect = .mysql) (hio : g.i
               cN cO hcN hcO hcNn.symm hsame.1 hsame.2
             rw [huniq td' htd' hn'] at hno
             exact absurd (by rw [h1, hcNn, hcOn]) (hno false s hs)
-          · have hchg : cO.typ ≠ cN.typ ∨ (¬ cO.opts.Perm cN.opts ∧ (∀ k ∈ cO.opts, k.noComment = true) ∧ (∀ k ∈ cN.opts, k.noComment = true)) := by
+          · have hchg : cO.typ ≠ cN.typ ∨ ¬ cO.opts.Perm cN.opts := by
               by_cases ht : cO.typ = cN.typ
-              · exact Or.inr ⟨fun hp => hsame ⟨ht, hp⟩, hncO cO hcO, hncN cN hcN⟩
+              · exact Or.inr (fun hp => hsame ⟨ht, hp⟩)
               · exact Or.inl ht
             obtain ⟨td', htd', hn', _, _, ⟨cd0, hmem, hpk, hcdn, _, _⟩⟩ := changed_column_modified g hg rc old new dbO dbN ho hn hpo hpn
               heo hen d hd t tbO tbN hfo hfn cN cO hcN hcO hcNn.symm hchg
@@ -490,9 +486,7 @@ theorem columns_spec_down_db (g : Globals) (hg : g.dialect = .mysql) (hio : g.ig
     (heo : execAll rc [] old = some dbO) (hen : execAll rc [] new = some dbN)
     (d : Migration) (hd : loadAndDiff g old new = .ok d)
     (t : String) (tbO tbN : TableSpec) (hfo : dbO.find t = some tbO) (hfn : dbN.find t = some tbN)
-    (hc : Abs.OrderCompatible tbN.colNames tbO.colNames) (hne : ∀ n ∈ tbN.colNames ++ tbO.colNames, n ≠ "")
-    (hncO : ∀ c ∈ tbO.cols, ∀ k ∈ c.opts, k.noComment = true)
-    (hncN : ∀ c ∈ tbN.cols, ∀ k ∈ c.opts, k.noComment = true) :
+    (hc : Abs.OrderCompatible tbN.colNames tbO.colNames) (hne : ∀ n ∈ tbN.colNames ++ tbO.colNames, n ≠ "") :
     ∃ td ∈ d.tables, td.name = t ∧ td.migrationColumnDown g = .ok (Table.walkCols g t false [] td.cols) ∧
       ∃ db' tb', execAll false dbN (Table.walkCols g t false [] td.cols).1 = some db' ∧
         db'.find t = some tb' ∧ colsEquiv tb'.cols tbO.cols = true ∧
@@ -500,7 +494,7 @@ theorem columns_spec_down_db (g : Globals) (hg : g.dialect = .mysql) (hio : g.ig
   have hnc : new.all Stmt.colSafe = true :=
     List.all_eq_true.mpr (fun s hs => Stmt.colSafe_of_elemSafe s (List.all_eq_true.mp hn s hs))
   obtain ⟨td, htd, hname, _, hdown, cols', hex, heq, hss⟩ := columns_spec_down_pre g hg hio rc old new dbO dbN ho hn hpo hpn
-    heo hen d hd t tbO tbN hfo hfn hc hne hncO hncN
+    heo hen d hd t tbO tbN hfo hfn hc hne
   obtain ⟨mn0, _, hrn0⟩ := ReaderMysql.run_rel rc new {} [] dbN Rel.empty hnc hen
   obtain ⟨db', tb', he', hf', hc', hother, hnames'⟩ := execAll_of_colExecAll _ dbN t tbN cols' hrn0.nodup hfn hss hex
   exact ⟨td, htd, hname, hdown, db', tb', he', hf', by rw [hc']; exact heq, hother, hnames'⟩
